@@ -375,10 +375,28 @@ func c10parity(c *an.Ctx) {
 		good := false
 		an.Instrs(spec.fn, func(in ssa.Instruction) {
 			b, ok := in.(*ssa.BinOp)
-			if !ok || b.Op != token.GTR {
+			if !ok {
 				return
 			}
-			if f, _ := an.LoadedField(an.Strip(b.X)); f != nil && f.Name() == "ContentLength" && isOptsField(c, b.Y, "nsqd", spec.field) {
+			// ContentLength > limit, in either spelling (`limit < ContentLength`, `!(ContentLength <= limit)` …)
+			x, y, op := b.X, b.Y, b.Op
+			if f, _ := an.LoadedField(an.Strip(y)); f != nil && f.Name() == "ContentLength" {
+				x, y = y, x
+				switch op {
+				case token.LSS:
+					op = token.GTR
+				case token.GEQ:
+					op = token.LEQ
+				case token.GTR:
+					op = token.LSS
+				case token.LEQ:
+					op = token.GEQ
+				}
+			}
+			if op != token.GTR && op != token.LEQ {
+				return
+			}
+			if f, _ := an.LoadedField(an.Strip(x)); f != nil && f.Name() == "ContentLength" && isOptsField(c, y, "nsqd", spec.field) {
 				good = true
 			}
 		})
